@@ -34,7 +34,7 @@ class Protocol(Component):
         if remainder:
             try:
                 json.loads(remainder.decode('utf-8'))
-            except ValueError:
+            except (ValueError, RecursionError):
                 self.__buffer = remainder
             else:
                 packets.append(remainder)
@@ -106,7 +106,7 @@ class Protocol(Component):
 
         try:
             is_call = 'name' in json.loads(packet)
-        except (TypeError, ValueError):
+        except (TypeError, ValueError, RecursionError):
             return
 
         if is_call:
